@@ -22,6 +22,7 @@ class AsyncioRunner(BaseRunner):
         super().__init__(asyncio_loop)
         self._tasks: Set[asyncio.Task] = set()
         self._payload_failure = asyncio_loop.create_future()
+        self._closed = False
 
     def register_payload(self, payload: Callable[[], Awaitable]):
         self.asyncio_loop.call_soon_threadsafe(self._setup_payload, payload)
@@ -43,6 +44,10 @@ class AsyncioRunner(BaseRunner):
         raise result
 
     def _setup_payload(self, payload: Callable[[], Awaitable]):
+        if self._closed:
+            # nobody is left to cancel (and cancel again) a payload started now
+            self._logger.warning("discarding payload %s during shutdown", payload)
+            return
         task = self.asyncio_loop.create_task(self._monitor_payload(payload))
         self._tasks.add(task)
 
@@ -65,6 +70,7 @@ class AsyncioRunner(BaseRunner):
         await self._payload_failure
 
     async def aclose(self):
+        self._closed = True
         if self._stopped.is_set() and not self._tasks:
             return
         # let the manage task wake up and exit
